@@ -402,7 +402,8 @@ def sign_match_cases(rng, res, n, base=None):
                                   "link_append", "link_one_key", "verify_gpg_no_id", "verify_with_output", "no_key_arg",
                                   "verify_with_empty_output", "verify_many", "verify_many", "verify_many", "link_verify_gpg_no_id",
                                   "verify_both_key_kinds", "verify_both_key_kinds",
-                                  "gpg_sign_verify_ok", "gpg_verify_other_key", "gpg_sign_default_key", "gpg_sign_envelope"], base, j)
+                                  "gpg_sign_verify_ok", "gpg_verify_other_key", "gpg_sign_default_key", "gpg_sign_envelope",
+                                  "verify_missing_key_file", "verify_garbage_key_file"], base, j)
             if variant.startswith("gpg_") and not W.gpg_available():
                 variant = "sign_verify_ok"
             if variant.startswith("gpg_"):
@@ -421,6 +422,16 @@ def sign_match_cases(rng, res, n, base=None):
                     _av = ["-f", "l.layout", "--verify", "-g", vg.keyid, "--gpg-home", vg.gpg_home]
                     st, _o, _e = cli.run_main("in_toto_sign", _av)
                     record(res, "sign_verify", {"variant": variant}, st, "sig" if variant == "gpg_verify_other_key" else "success")
+            elif variant in ("verify_missing_key_file", "verify_garbage_key_file"):
+                # a signed layout checked with a key file that is not there / is not a key: the check could not be made -
+                # neither "verified" nor "bad signature"
+                md.create_signature(k.signer); md.dump("l.layout")
+                kf = os.path.join(d, "nokey.pem")
+                if variant == "verify_garbage_key_file":
+                    open(kf, "w").write("-----BEGIN PUBLIC KEY-----\nnot a key\n-----END PUBLIC KEY-----\n")
+                _av = ["-f", "l.layout", "--verify", "-k", kf]
+                st, _o, _e = cli.run_main("in_toto_sign", _av)
+                record(res, "sign_verify", {"variant": variant, "dsse": dsse}, st, "fail")
             elif variant in ("sign_verify_ok", "verify_wrong_key"):
                 _av = ["-f", "l.layout", "-k", priv_path(k)]
                 st, _o, _e = cli.run_main("in_toto_sign", _av)
